@@ -518,6 +518,8 @@ type enfWorld struct {
 	grown int
 	// onBanSeen is told when a scripted peer itself saw IsBanned turn true.
 	onBanSeen func(addr string)
+	// isBanSeen: has the run already seen this address banned?
+	isBanSeen func(addr string) bool
 }
 
 func (e *enfWorld) Tip() *chaingen.Node { e.tipMu.Lock(); defer e.tipMu.Unlock(); return e.tip }
@@ -596,9 +598,42 @@ func buildEnf(p EnfPlan) *enfWorld {
 		default:
 			panic("unknown class " + pp.Class)
 		}
+		if ep.P.PreVersion == nil {
+			e.armAnnounceWhenBanned(ep)
+		}
 		e.Peers = append(e.Peers, ep)
 	}
 	return e
+}
+
+// armAnnounceWhenBanned makes a peer that is already known to be banned push:
+// on every connection the client lets it complete a handshake on, it at once
+// announces a block the client does not know (an unsolicited inv, which the
+// client normally answers with getheaders). On the unchanged client such a
+// connection never gets as far as the peer's version message, so this does
+// nothing; it only makes "a later connection to a banned address carries no
+// request" a sharper observation than waiting for the client's own next
+// query.
+func (e *enfWorld) armAnnounceWhenBanned(ep *enfPeer) {
+	ep.P.PreVersion = func(p *netsim.Peer) {
+		if e.isBanSeen == nil || !e.isBanSeen(p.Addr) {
+			return
+		}
+		c := p.Conn()
+		if c == nil {
+			return
+		}
+		go func() {
+			l2.WaitFor(3*time.Second, func() bool { return c.Dead() || p.IsReady() })
+			if c.Dead() {
+				return
+			}
+			tip := e.Tip()
+			if int(tip.Height) < len(e.Trunk) {
+				p.AnnounceInv(e.Trunk[tip.Height]) // the block after the current tip
+			}
+		}()
+	}
 }
 
 // fitLie moves an omit-script lie to the nearest block (inside the same
